@@ -349,6 +349,51 @@ def rule_R7(ck):
     ck.instance(("poly", "wait-values"), {"c1*K1 + c2*K2 + C with K1 := E, K2 := D": repr(gen[0].value)}, fn="deferred::LinearPolynomial._wait")
     if gen[0].kind != "return" or gen[0].value != want:
         ck.violation("deferred::LinearPolynomial._wait", f"waiting c1*K1 + c2*K2 + C with K1 := E, K2 := D gives {gen[0].value!r}, expected {want!r}", construct="poly wait values", expected=repr(want), found=repr(gen[0].value))
+    # two keys that resolve to polynomials over the SAME variable: c1*K1 + c2*K2 + C with K1 := d1*K3 + D, K2 := d2*K3 + L, K3 := E
+    #   -> (c1*d1 + c2*d2)*E + c1*D + c2*L + C     (the coefficients of K3 add up)
+    def thunk2b():
+        K1, K2, K3 = prom("K1"), prom("K2"), prom("K3")
+        P = mkpoly(I, {K1: c1, K2: c2}, C)
+        I.call_method(K1, "settle", [mkpoly(I, {K3: d1}, D)])
+        I.call_method(K2, "settle", [mkpoly(I, {K3: d2}, L)])
+        first = I.call_method(P, "_wait", []) if False else None
+        I.call_method(K3, "settle", [E])
+        return I.call(I.module_get("deferred", "wait"), [P], {})
+    d2 = sym.var("d2", "int")
+    ps = I.explore(thunk2b)
+    gen = [p for p in ps if all(v for k, v in p.decisions)] or ps
+    want = sym.add(sym.add(sym.add(sym.mul(sym.add(sym.mul(c1, d1), sym.mul(c2, d2)), E), sym.mul(c1, D)), sym.mul(c2, L)), C)
+    ck.instance(("poly", "wait-shared"), {"c1*K1 + c2*K2 + C with K1 := d1*K3 + D, K2 := d2*K3 + L, K3 := E": repr(gen[0].value), "expected": repr(want)}, fn="deferred::LinearPolynomial._wait")
+    if gen[0].kind != "return" or gen[0].value != want:
+        ck.violation("deferred::LinearPolynomial._wait", f"waiting c1*K1 + c2*K2 + C where K1 and K2 are both polynomials over K3 gives {gen[0].value!r}, the algebra requires {want!r} "
+                                                         "(coefficients of a shared variable add up: 'x = fwd+2', 'y = fwd+10', '.word y - x' is 6)",
+                     construct="poly wait shared variable", expected=repr(want), found=repr(gen[0].value))
+    # ... and while K3 is still unknown (the flattened polynomial must already carry the summed coefficient)
+    def thunk2c():
+        K1, K2, K3 = prom("K1"), prom("K2"), prom("K3")
+        P = mkpoly(I, {K1: c1, K2: c2}, C)
+        I.call_method(K1, "settle", [mkpoly(I, {K3: d1}, D)])
+        I.call_method(K2, "settle", [mkpoly(I, {K3: d2}, L)])
+        tc = I.module_get("deferred", "try_compute")
+        try:
+            I.call_method(tc, "__enter__", [])
+            try:
+                I.call_method(P, "wait", [])
+            except Raised:
+                pass
+        finally:
+            I.call_method(tc, "__exit__", [None, None, None])
+        I.call_method(K3, "settle", [E])
+        return I.call(I.module_get("deferred", "wait"), [P], {})
+    try:
+        ps = I.explore(thunk2c)
+        gen = [p for p in ps if all(v for k, v in p.decisions)] or ps
+        ck.instance(("poly", "wait-shared-early"), {"same, with a first attempt while K3 is unknown": repr(gen[0].value)}, fn="deferred::LinearPolynomial._wait")
+        if gen[0].kind != "return" or gen[0].value != want:
+            ck.violation("deferred::LinearPolynomial._wait", f"after a first (not ready) attempt, waiting c1*K1 + c2*K2 + C over a shared K3 gives {gen[0].value!r}, the algebra requires {want!r}",
+                         construct="poly wait shared variable", expected=repr(want), found=repr(gen[0].value))
+    except Unsupported as ex:
+        ck.note(f"wait-shared-early not evaluated: {ex}")
     # cancellation while unknown: (K1 + c) - K1 is the constant c without waiting K1
     def thunk3():
         K1 = prom("K1")
@@ -466,3 +511,7 @@ def run(ck):
     ck.run_rule("C03.R9", "symbol tables are read by duplicate guards, lazily, or finally", 8, rule_R9)
     ck.run_rule("C02.R7w", "unused definitions are evaluated too (their errors do not depend on use order)", 1, c02.rule_closing_wait)
     ck.run_rule("G12", "definition chains of any length: lazily evaluated values do not force their operands from inside their own thunks", 6, escape.rule_G12)
+    from . import c11
+    ck.run_rule("C11.R5", "'.extern all' exports what is defined before AND after it (a definition may stand on either side)", 4, c11.rule_R5)
+    from ..rules import treeimm
+    ck.run_rule("G4.def", "a symbol value, once built, is not updated in place (only memoised)", 30, treeimm.rule_deferred_immutable)
